@@ -42,6 +42,12 @@ checks = {
  "C19": dict(cat="exploration", tech="exhaustive enumeration of every single-rune string over all Unicode scalar values plus every string up to length 3 over a 64-rune alphabet, x option sets",
    text="For every string s of the enumerated set: Unescape(Escape(s)) == s, and \\A(?:Escape(s))\\z compiles under every option set of the menu, matches exactly s and rejects every one-rune deletion, duplication and successor replacement of s.",
    note="Strings longer than 3 runes and alphabets outside the 64-rune menu are not covered except as single runes.", ref="4 C19"),
+ "C11": dict(cat="model_checking", eng="E-sched", tech="stateless schedule exploration of 2-3 goroutine scenarios on the real code under a controlled scheduler (preemption- and deviation-bounded DFS incl. every pool answer); auxiliary free-running race-detector leg",
+   text="Nine scenarios built to collide (runner pool, quick/full program switch, replacement cache smaller than the replacement set, global buffer pools across two Regexps, stack-limited failure next to success, concurrent clock start/extend, balancing state next to bool-only calls) are executed under every interleaving at sync/atomic/pool/time operations and every k-th interpreter step up to the preemption bound, with every pool answer (any pooled item, miss, dropped Put) up to the deviation bound; each call must return what it returns alone on a fresh Regexp; no deadlock. The same bodies also run free under the race detector (auxiliary, not exhaustive).",
+   note="Sequentially consistent scheduler; plain memory accesses between scheduling points are only seen by the race-detector leg, which is sampling and labelled exhaustive:false. An execution cap per scenario is reported when hit.", ref="4 C11, 3.4"),
+ "C20": dict(cat="exploration", tech="bounded-exhaustive enumeration of case-insensitive patterns x inputs x ALL case-flip masks of pattern letters and input letters (whole orbit compared)",
+   text="Every pattern of the CASE grammar (literals, classes, ranges, negation, subtraction incl. nested, backreferences, leading literal runs, category escapes) compiled with IgnoreCase (also code-gen analysis and RightToLeft), every input up to the bound, and every spelling of both obtained by flipping the case of any subset of letters must give the same outcome (found, index, length, all captures) through the rune and string entry points; ASCII, Latin-1, Greek and Cyrillic simple pairs; corpus patterns with their literal letters flipped.",
+   note="Only letters whose fold orbit is a simple upper/lower pair (checked against unicode.SimpleFold at start-up). Two corpus patterns (\\p{sb=lower}) are recorded findings.", ref="4 C20"),
  "C03": dict(cat="exploration", tech="bounded-exhaustive differential: accelerated scan vs naive scan of the same compiled program at every start offset",
    text="For every enumerated pattern (families chosen per search mode; code-gen analysis on/off; both directions) and every input and start offset, the public rune and string entry points must return exactly what the verif-only naive scan (attempt at every position, no filter, no candidate search, no cut-off) returns for the same compiled program.",
    note="Trusted: the hook VerifNaiveScan and the interpreter itself (it is common to both sides; its meaning is C01's business). Bounds as printed in the evidence.", ref="4 C03"),
